@@ -55,7 +55,8 @@ CHECKS = {
                 "step, gamma on controls, first states skipped), its cell "
                 "discipline, dest sizing and J = sum / simulated time."
                 " D10.9: every call of run_ode / multi_run_ode passes a setting named like a callee parameter as that parameter and does not mix test_* and training_* settings in one run."
-                " At a call of an ode helper, a defaulted parameter is not left to its default when the caller holds a setting of that name.",
+                " At a call of an ode helper, a defaulted parameter is not left to its default when the caller holds a setting of that name."
+                " A field of System named like a constructor argument can take that argument's value.",
         "design_ref": "DESIGN.md section 4, C10 and 10.2",
         "note": "Does NOT decide termination/accuracy inside scipy's RK45, "
                 "strict monotonicity of float times, agreement with "
@@ -257,7 +258,8 @@ CHECKS = {
                 " Whatever Hardness.evaluate keeps in self between evaluations depends on the evaluated instance only through its name (the memo key)."
                 " Positional constructor arguments of the result record are bound through the constructor's signature."
                 " Packing.from_log hands the given instance to the parser, which keeps it in the field the PackingSpace is built from (D12.7)."
-                " In the experiment modules and examples every parameter of a function that builds or configures an Execution is read in its body (D12.8).",
+                " In the experiment modules and examples every parameter of a function that builds or configures an Execution is read in its body (D12.8)."
+                " A record obtained from create() is filled (get_copy_of_*, decode, copyto, store) before it is reported (D12.9).",
         "design_ref": "DESIGN.md section 4, C12",
         "note": "Does NOT decide run behaviour: termination within budget, "
                 "feasibility of final solutions, logged value = "
@@ -395,7 +397,8 @@ CHECKS = {
                 " Loop-carried names of the per-bin sweep (area accumulator, position) must be set again at the start of every bin."
                 " The declared upper bound is accepted when it is coefficient-wise at least n_items*S or the recognised tight form of its tie-breaker kind, and refuted by evaluating the bound polynomial for two families of feasible packings with known value; a constant offset of the per-bin table index is normalised into the slice bounds."
                 " The declared lower bounds are evaluated on three families of feasible packings with known value (one item filling the bin, n unit squares in one bin, two bin-filling items) and must not exceed it."
-                " Scratch arrays that accumulate products (areas) have the 64-bit integer cell type; scratch arrays that count may also use the instance's type (D2.3).",
+                " Scratch arrays that accumulate products (areas) have the 64-bit integer cell type; scratch arrays that count may also use the instance's type (D2.3)."
+                " BinCount.evaluate computes the count from the rows, not from the stored n_bins attribute.",
         "design_ref": "DESIGN.md section 4, C02 and 10.2",
         "note": "Decides D2.1-D2.6. Validity of lower_bound() for the "
                 "objectives with a secondary term is decided only as a "
@@ -427,7 +430,8 @@ CHECKS = {
                 "instance with the same statistic of the template, hence "
                 "is 0 on the template."
                 " The hardness objective is a function of the instance: the seeds of its runs come from the instance name on every path, stored seeds are re-used only behind `stored name == name`, seeds and name are stored together, and nothing else computed from an evaluated instance is kept."
-                " In the instance-generation package a parameter annotated Iterable is traversed at most once before it is materialised (D17.11).",
+                " In the instance-generation package a parameter annotated Iterable is traversed at most once before it is materialised (D17.11)."
+                " Every random decision of decode() comes from a generator that decode() itself creates (D17.12).",
         "design_ref": "DESIGN.md section 4, C17 and 10.2",
         "note": "Decides D17.1-D17.9. Not decided: lower_bound_bins == "
                 "min_bins as a value (needs the validity of the DAMV "
@@ -473,7 +477,8 @@ CHECKS = {
                 "accumulator, the 2^63 cap and the symmetry-flag protocol "
                 "are decided on the CFG / guard conditions."
                 " The stored matrix is a private copy: allocate-and-copyto or a converting constructor that always returns new storage, followed by the entry-by-entry verification; a conversion that may return its argument (asarray / view / copy=False) is a finding."
-                " The range multiplier is a factor of the requested limit outside of max(upper_bound, n).",
+                " The range multiplier is a factor of the requested limit outside of max(upper_bound, n)."
+                " Fallback when the loop is not summarised: the closing edge is read from the last city to the first.",
         "design_ref": "DESIGN.md section 4, C05",
         "note": "Decides D5.1-D5.4. Trusted: N1 (kernel integer scalars "
                 "are 64 bit), N3 (index -1 wraps), entries non-negative "
